@@ -13,13 +13,13 @@ META = {
                  'repeated runs and thread counts; SHA-1 vectors at block boundaries',
     'functions_encoded': ['C emitted by w2c2 under the options (c.c: wasmCWriteModule*, wasmCWriteImplementationFile, wasmCImplementationWriterThread as executed by the real translator run)',
                           'main.c: wasmSplitStaticAndDynamicFunctions, wasmFunctionIDsCompareHashes'],
-    'bounds': {'options': '{-p} x {-f 0,1,2,#f,#f+1} x {-t 1,2,5} x {-m} x {-g without/with name section} x {-r: same module, one body changed, empty module} (pairwise-complete subset in quick tier)',
+    'bounds': {'options': '{-p} x {-f 0,1,2,#f,#f+1} x {-t 1,2,5} x {-m} x {-g without/with name section} x {-d arrays, gnu-ld} x {-r: same module, one body changed, empty module} (pairwise-complete subset in quick tier)',
                'modules': '5 shapes (calls between functions, globals, memory+data, table+elements+start, imports, export names needing escapes)', 'split kernel': 'n, m <= 3 IDs, duplicates allowed'},
     'assumptions': ['translator build configurations other than the detected one (no pthreads, bundled getopt/libgen/strdup) are built and pushed through the same family in the thorough tier',
                     'sha1.c is trusted as a correct, collision-free hash: SAT cannot decide SHA-1 properties; its block handling is checked concretely against hashlib at lengths around 64-byte boundaries (auxiliary)'],
     'out_of_claim': ['all interleavings of producer and worker threads: the hand-off in wasmCWriteModuleImplementationFiles / wasmCImplementationWriterThread is exercised only through real runs with -t N '
                      '(a sequentialised-scheduler harness like C17 needs wasmCWriteImplementationFile stubbed, which cannot be done add-only for a static function without pulling the whole emitter in)',
-                     '-d gnu-ld / sectcreate data modes (need linker-provided symbols)', 'thread counts above 5'],
+                     'sectcreate1/2 data modes (Mach-O only); for -d gnu-ld the linker-provided symbol _binary_datasegments_start is supplied from the emitted datasegments file', 'thread counts above 5'],
 }
 
 
@@ -40,6 +40,13 @@ def option_family(ctx):
     ci = Func([I32, I32], [I32], [], [('local.get', 1), ('local.get', 0), ('call_indirect', ([I32], [I32]), 0)])
     m2 = Module(imports=[h], funcs=[s0, a, b, ci], tables=[(4, 4)], elems=[Elem(('i32.const', 1), [2, 3])], start=1, exports=[('ci', 'func', 4)], names={1: 'start', 4: 'dispatch'})
     mods.append(('table', m2, [{'call': 'ci'}]))
+    # shape 4: data-segment embedding: passive / active / passive segments + memory.init (exercised under -d arrays and -d gnu-ld)
+    ld = Func([I32], [I64], [], [('local.get', 0), ('i64.load', 0, 0)])
+    ini = Func([I32, I32, I32], [], [], [('local.get', 0), ('local.get', 1), ('local.get', 2), ('memory.init', 2)])
+    ini0 = Func([I32, I32, I32], [], [], [('local.get', 0), ('local.get', 1), ('local.get', 2), ('memory.init', 0)])
+    m4 = Module(funcs=[ld, ini, ini0], mems=[(1, 1)], datas=[Data(None, b'AAAA', passive=True), Data(('i32.const', 16), b'BBBB'), Data(None, b'CCCCC', passive=True), Data(('i32.const', 40), b'DD')],
+                datacount=True, exports=[('ld', 'func', 0), ('init', 'func', 1), ('init0', 'func', 2)])
+    mods.append(('datamodes', m4, [{'call': 'init', 'args': {2: 3}}, {'call': 'init0', 'args': {2: 2}}, {'call': 'ld'}]))
     # shape 3: control flow body
     mods.append(('cf', F.control_flow(0, 7), [{'call': 'f', 'assume': {0: '$ <= 3'}}]))
     return mods
@@ -50,7 +57,7 @@ def opt_sets(nfuncs, quick):
     ts = [1, 2, 5]
     out = []
     if quick:
-        out = [[], ['-p'], ['-f', '1', '-t', '1'], ['-f', '2', '-t', '2'], ['-f', str(nfuncs + 1), '-t', '5'], ['-m'], ['-g'], ['-p', '-m', '-g', '-f', '1', '-t', '2'], ['-g', '-f', '2', '-t', '5']]
+        out = [[], ['-p'], ['-d', 'gnu-ld'], ['-d', 'gnu-ld', '-p', '-f', '1', '-t', '2'], ['-f', '1', '-t', '1'], ['-f', '2', '-t', '2'], ['-f', str(nfuncs + 1), '-t', '5'], ['-m'], ['-g'], ['-p', '-m', '-g', '-f', '1', '-t', '2'], ['-g', '-f', '2', '-t', '5']]
     else:
         for p in ([], ['-p']):
             for f in fs:
@@ -58,6 +65,7 @@ def opt_sets(nfuncs, quick):
                     for mm in ([], ['-m']):
                         for g in ([], ['-g']):
                             out.append(p + ['-f', str(f), '-t', str(t)] + mm + g)
+        out += [['-d', 'gnu-ld'], ['-d', 'gnu-ld', '-p', '-f', '1', '-t', '2'], ['-d', 'gnu-ld', '-m']]
     return out
 
 
